@@ -158,7 +158,11 @@ LARGE = [(61, 500, 3, True), (100, 400, 4, True), (250, 40, 12, True), (250, 20,
          (1000, 200, 49, True), (2000, 100, 99, True), (400, 300, 19, True), (900, 15, [40, 44], False),
          (300, 200, 29, True), (300, 2, 149, False), (64, 300, 31, True),
          # hundreds of disjoint interventions out of a pool at least four times as large (coincidences BETWEEN interventions)
-         (1000, 250, 1, False), (2000, 500, 1, False), (400, 100, 1, False), (4000, 300, [1, 3], False), (1200, 100, 3, False)]
+         (1000, 250, 1, False), (2000, 500, 1, False), (400, 100, 1, False), (4000, 300, [1, 3], False), (1200, 100, 3, False),
+         # few, large interventions out of a pool more than fifty times as large (coincidences INSIDE one intervention)
+         (20000, 2, 200, False), (5000, 2, 50, False), (50000, 3, 300, False), (20000, 2, 200, True),
+         # every variable occurs: thousands of single targets out of 64 .. 1000 variables
+         (64, 600, 1, True), (200, 900, 3, True), (255, 1500, 1, True), (1000, 5000, 2, True)]
 HUGE = [(25000, 401, 2, True), (101, 100001, 3, True), (5000, 2001, [1, 3], True)]        # K * p > 10^7
 
 
